@@ -31,7 +31,7 @@ SPEC = dict(
              'and minimal (c10_src_label_kind, c10_src_label_minimal) and whatever serialize_dict returns is THE canonical cell of the map (c10_src_canonical). Outside that domain (keys wider than the dict injected through HashMap(map_=..)) the Python dict re-keying may merge keys; not covered.',
         level_note='Trusted: Lean kernel (propext, Classical.choice, Quot.sound); Spec/Hashmap.lean as the transcription of hashmap.tlb and of '
                    'append_dict_label; Model/Hashmap.lean as a hand transcription of utils.py/parse.py (tied by sampled differential correspondence: '
-                   'for Slice.load_hashmap_aug_e, non-default deserialisers and the Builder / Slice primitives only; HashMap.set / serialize / parse / from_cell, Slice.load_dict / preload_dict / load_hashmap / load_hashmap_aug and the int-key conversion of parse_hashmap_aug are regenerated (hashmapglue.py) and proved equal to the model (c10_src_parse_hashmap_aug, c09_src_*); parser AND serialiser side: regenerated from parse.py / utils.py and proved equal, a value serialiser being read as a callback that appends bits and references (serCb), trusting pyrec.py, the declared interface in hashmapsrc.py and PyHm.lean as the reading of Slice/Builder/dict, validated against the library on 2.4k inputs per change; every (len,max,same) with max<=40 (<=64 thorough), tie-break boundaries for max up to 1023, random valid non-canonical trees '
+                   'for non-default deserialisers and the Builder / Slice primitives only; HashMap.set / serialize / parse / from_cell, Slice.load_dict / preload_dict / load_hashmap / load_hashmap_aug / load_hashmap_aug_e (ordinary slice) and the int-key conversion of parse_hashmap_aug are regenerated (hashmapglue.py) and proved equal to the model (c10_src_parse_hashmap_aug, c10_src_load_hashmap_aug_e, c09_src_*); parser AND serialiser side: regenerated from parse.py / utils.py and proved equal, a value serialiser being read as a callback that appends bits and references (serCb), trusting pyrec.py, the declared interface in hashmapsrc.py and PyHm.lean as the reading of Slice/Builder/dict, validated against the library on 2.4k inputs per change; every (len,max,same) with max<=40 (<=64 thorough), tie-break boundaries for max up to 1023, random valid non-canonical trees '
                    'with Merkle prunings through 8 parser entry points; over-long labels of every constructor at depth 0-4 must raise); the 200-line Python->Lean translator for the label functions; '
                    'that the hash equals the on-chain one rests on c10_canonical + c10_unique + Spec/Hashmap.lean being the reference format, on C01 (cell hash), and is cross-checked on samples against an independent Python transcription of dict.cpp.',
         technique='Lean 4 proof (label functions, label reader, parse recursion, tree building and label/edge writer and the HashMap / Slice entry points regenerated from source and proved equal to the model) + differential correspondence + independent reference serialiser',
@@ -463,6 +463,38 @@ def overlong_cases(ctx):
                         overlong_case(ctx, n, kind, length, path, ybits, rng.getrandbits(32), f'overlong{t}')
 
 
+def auge_case(ctx, bits, refs, n, tag):
+    """hashmap.tlb `ahme_empty$0 extra:Y` / `ahme_root$1 root:^(HashmapAug n X Y) extra:Y`: the top-level extra is a mandatory field, so
+    `Slice.load_hashmap_aug_e` (y_deserializer = load_bit) on an ordinary slice that has NO bit left behind the presence bit must raise
+    (c10_aug_e_extra_required), and where the extra is present it must be consumed."""
+    inp = {'kind': 'auge', 'bits': bits, 'refs': [hmsrc._show_cell(r) for r in refs], 'cells': [_jsonable(r) for r in refs], 'n': n, 'tag': tag}
+
+    def f():
+        sl = hmsrc._py_slice((-1, bits, ()))
+        cs = []
+        for r in refs:
+            c = hmsrc._py_cell(r)
+            c.type_ = r[0]
+            cs.append(c)
+        sl.refs = cs
+        r = sl.load_hashmap_aug_e(n, lambda cs_: cs_.load_bits(2).to01(), lambda cs_: cs_.load_bit())
+        return r, len(sl.bits)
+    got = call(f)
+    ctx.case(('auge', bits, tuple(inp['refs']), n), sample=inp)
+    if len(bits) == 1 and not is_err(got):
+        ctx.fail('aug-e:extra-not-required', 'load_hashmap_aug_e returned although the mandatory top-level extra is missing', inp, 'returned', 'raises')
+    elif len(bits) >= 2 and not is_err(got) and got[1] != len(bits) - 2:
+        ctx.fail('aug-e:extra-not-consumed', 'load_hashmap_aug_e left the top-level extra in the slice', inp, f'{got[1]} bits left', f'{len(bits) - 2} bits left')
+
+
+def _jsonable(t):
+    return [t[0], t[1], [_jsonable(r) for r in t[2]]]
+
+
+def _tupled(t):
+    return (t[0], t[1], tuple(_tupled(r) for r in t[2]))
+
+
 def src_search(ctx):
     """Search mode only (a `c10_src_*` obligation or the tie broke): Lean evaluates the regenerated parser / serialiser
     (Generated/HashmapSrc.lean) against the hand model on the translator's validation inputs; the differing points are judged by
@@ -493,6 +525,11 @@ def src_search(ctx):
             for k, v in items:
                 canon_case(ctx, n, [k2 for k2, _ in items], v, 'src-ser')
                 break
+    try:
+        for i, (bits, refs, n) in enumerate(hmglue.validation_inputs()['auge']):
+            auge_case(ctx, bits, refs, n, f'src-auge{i}')
+    except Exception as e:
+        ctx.notes.append(f'load_hashmap_aug_e search failed: {type(e).__name__}: {e}')
     return len(ctx.failures) > n0
 
 
@@ -525,6 +562,8 @@ def replay(ctx, payload):
             ctx.fail('label-reader:accepted', 'deserialize_hml returned on bits that are no HmLabel under this bound (hashmap.tlb)', inp, got, 'raises')
         elif want is not None and (is_err(got) or tuple(got) != tuple(want)):
             ctx.fail('label-reader:wrong', 'deserialize_hml does not return the label hashmap.tlb denotes', inp, got, want)
+    elif inp.get('kind') == 'auge':
+        auge_case(ctx, inp['bits'], [_tupled(c) for c in inp['cells']], inp['n'], inp.get('tag', 'replay'))
     elif inp.get('kind') == 'overlong':
         overlong_case(ctx, inp['n'], inp['ctor'], inp['length'], [tuple(p) for p in inp['path']], inp['ybits'], inp['seed_bits'], inp.get('tag', 'replay'))
 
